@@ -935,7 +935,29 @@ def run(ctx):
                     ctx.violation(sgn, det)
                 allsigs[json.dumps(sgn, sort_keys=True)] += cnt
         ctx.log("cpu-wall: %.1fs loading modules, %.1fs executing cases" % (tot["t_build"], tot["t_run"]))
+        # complex arguments / results of extern "Python" functions (libffi callbacks cannot have them)
+        from . import _c14_complex as CX
+        cx_sigs = CX.signatures()
+        n_cx = 0
+        groups = [(False, [g for g in cx_sigs if "dc" not in g[1]]), (True, [g for g in cx_sigs if "dc" in g[1]])]
+        for (has_dc, sg), r in pool.pmap(lambda it: CX.work(it[1]), [[g] for g in groups], item_timeout=900):
+            if isinstance(r, pool.WorkerError):
+                raise InfraError(r.tb)
+            if isinstance(r, pool.Crash):
+                ctx.violation({"kind": "crash", "mech": "extern-python", "args": "complex",
+                               "double_complex_argument": has_dc},
+                              {"complex": True, "how": r.describe(), "double_complex_argument": has_dc,
+                               "note": "the module is built with -fstack-protector-all: a trampoline overran its buffer"})
+                continue
+            n, cx_bad = r
+            n_cx += n
+            for kind, decl, info in cx_bad:
+                ctx.violation({"kind": kind, "mech": "extern-python", "type": info.get("type"),
+                               "double_complex_argument": has_dc},
+                              {"complex": True, "decl": decl, "info": info})
+        tot["cases"] += n_cx
         cov = {
+            "complex_signatures_extern_python": n_cx,
             "evaluations": tot["cases"],
             "distinct_nontrivial": tot["nontrivial"],
             "signatures": tot["nsig"],
@@ -967,6 +989,12 @@ def run(ctx):
 
 
 def replay(detail):
+    if detail.get("complex"):
+        from . import _c14_complex as CX
+        n, bad = CX.work(CX.signatures())
+        for b in bad:
+            print("MISMATCH", b)
+        return 1 if bad else 0
     model()
     sys.unraisablehook = _hook
     shared = build.scratch_shared()
